@@ -2,7 +2,8 @@
     Proved here: the round trip [parse (render tree) = tree] for every tree of the operator
     grammar (identifiers, prefix runs of any length, * / %, + -, the seven relations, && / ||
     chains of any length, ?:, explicit parentheses) rendered with minimal parentheses - at token
-    level, for every sufficient fuel; the operand order of && / || chains; the cancellation of
+    level, with the fuel [compile] itself uses (an explicit bound on the fuel each tree needs is
+    proved to fit under 16 * (tokens + 2)); the operand order of && / || chains; the cancellation of
     prefix runs; that macros expand around their receiver and arguments.  Partial in this: the
     postfix forms (select, index, calls), literals and collection literals are outside the
     round-trip theorem and are covered by the correspondence run (every tree with up to 2
@@ -11,7 +12,7 @@
 From Coq Require Import String Ascii.
 From Cel.Model Require Import Parser.
 From Cel.Model Require Import Surface.
-From Cel.Proofs Require Import PrecedenceProofs ParserRoundtrip.
+From Cel.Proofs Require Import PrecedenceProofs ParserRoundtrip ParserFuel.
 
 (** Chains of && / || keep their operands in source order: for every number of operands the
     tree built for t0 op t1 op ... tn ([logic_tree], applied by the parser's chain loops to the
@@ -81,7 +82,11 @@ Proof. split; vm_compute; reflexivity. Qed.
 
 (** Rendering then parsing gives the tree back: precedence, left associativity, balanced
     logical chains and grouping, for trees of any size. *)
-Theorem C04_roundtrip : forall t, wf_st t ->
+Theorem C04_roundtrip : forall t, wf_st t -> parse_tokens (raw t) = CExpr (ast t).
+Proof. exact parse_tokens_roundtrip. Qed.
+
+(** ... and with any larger fuel: the result does not depend on how much is left over. *)
+Theorem C04_roundtrip_any_fuel : forall t, wf_st t ->
   exists n, forall f, (n <= f)%nat -> p_expr f (raw t) = POk (ast t) [].
 Proof. exact parse_roundtrip. Qed.
 
@@ -97,3 +102,4 @@ Print Assumptions C04_chain_loops.
 Print Assumptions C04_prefix_parity.
 Print Assumptions C04_macro_around.
 Print Assumptions C04_roundtrip.
+Print Assumptions C04_roundtrip_any_fuel.
